@@ -9,6 +9,7 @@ import Avra.Model.Cli
 import Avra.Props.C07
 import Avra.Props.C12
 import Avra.Lemmas.Bytes
+import Avra.Props.C16
 namespace Avra.Props.C18
 open Avra Avra.Model Avra.Model.Cli
 
@@ -121,6 +122,17 @@ theorem exit_status (fs : Fs) (inc : Str) (o : Opts) (r : Res) (hr : run fs inc 
     · simp only [Out.ok.injEq, exists_eq_left', reduceCtorEq, exists_false, false_or]
       rw [← f1.1, ← f2.1]
       omega
+
+/-- **the tool always ends with an exit status**: whatever the source, the options and the file
+    system, `main` neither panics nor fails to answer (C16.build_file_always_answers underneath) -/
+theorem run_always_answers (fs : Fs) (inc : Str) (o : Opts) : ∃ r, run fs inc o = .ok r := by
+  unfold run
+  rcases Avra.Props.C16.build_file_always_answers fs [] o.source [inc] with ⟨b, hb⟩ | ⟨e, he⟩
+  · rw [hb]; exact ⟨_, rfl⟩
+  · rw [he]; exact ⟨_, rfl⟩
+
+/-- a source name in a directory whose name has a dot, no extension: the stem is the whole name -/
+example : defaultOut ['f', '.', 'v', '/', 'b'] ['.', 'h'] = ['f', '.', 'v', '/', 'b', '.', 'h'] := by decide
 
 /-! ### the default paths (examples of `Path::parent` / `file_stem` as modelled) -/
 example : flashPath { source := ['d', '/', 'p', '.', 'a'] } = ['d', '/', 'p', '.', 'h', 'e', 'x'] := by decide
